@@ -116,6 +116,7 @@ def run_stmt(s, regs, ins, outs, st):
         st["pc"] += 1
         if op == "guarded":
             c = regs[s[1]]
+            st["guard_conds"].append(cond_value(c))
             def body():
                 st["gstack"].append((s[1], 1))
                 try:
@@ -192,7 +193,7 @@ def run_case(case):
     rt.guard = None; rt._ignore_errors = bool(cfg["ign"]); LinComb.ONE = ONE0
     rt.bitlength = cfg["n"]; fx.resolution = cfg["res"]
     w = lambda k: 1 if k == 0 else (R.pubs[k - 1] if k > 0 else R.privs[-k - 1])
-    outs = []; st = {"pc": 0, "coh": [], "w": w, "vals": [], "snap": {}, "mutated": [], "gstack": [], "probes": [], "exn_ctx": None, "condvals": {}}
+    outs = []; st = {"pc": 0, "coh": [], "w": w, "vals": [], "snap": {}, "mutated": [], "gstack": [], "probes": [], "exn_ctx": None, "condvals": {}, "guard_conds": []}
     exn = None; gobs = None
     st["regs"] = {}
     try:
@@ -216,6 +217,7 @@ def run_case(case):
            "dig": [D.digest_vars(p, R.kinds, R.pubs, R.privs), D.digest_cons(p, cons), D.digest_outs(p, outs), D.digest_exn(p, exn, cur)],
            "unsat": unsat[:5], "incoherent": st["coh"][:5], "mutated": st["mutated"][:5], "floatbad": st.get("floatbad", False), "pc": st["pc"],
            "shape": [D.digest_cons(p, cons), "".join(R.kinds), D.digest_outs(p, [(t, 0, l) for t, v, l in outs if t > 0])],
+           "guard_conds": st["guard_conds"][:50],
            "globals": [rt.guard is None, bool(rt._ignore_errors), LinComb.ONE is ONE0],
            "final_regs": {str(k): plain(v) for k, v in list(st.get("regs", {}).items())[:200]},
            "vals": st["vals"][:300], "probes": st["probes"][:50], "exn_ctx": st["exn_ctx"], "exn_pc": st.get("exn_pc")}
